@@ -98,6 +98,9 @@ func (r *Rec) Validate() error {
 		}
 	case 3:
 		return ErrRule
+	case 9:
+		// concurrent workloads only: a slow hook widens every window between two phases of a call
+		time.Sleep(200 * time.Microsecond)
 	}
 	return nil
 }
